@@ -1,5 +1,6 @@
 pub mod clsabort;
 pub mod clsgrp;
+pub mod clsthreads;
 pub mod factor;
 pub mod lanczos;
 pub mod lattice;
